@@ -343,37 +343,53 @@ func runC08(c *Ctx, idx int, o *Obs) {
 			want := fmt.Sprintf("%d\n0\n%d\n", t1l+t2l, t1l+t2l)
 			o.Check(res.Stdout == want, "cli_compare_rf", fmt.Sprintf("got %q, expected %q", res.Stdout, want), inp)
 		}
+		// identical-only mode, with and without tips: line i says whether tree i is the reference tree
+		for _, extra := range [][]string{{"--binary"}, {"--binary", "-l"}} {
+			res = runCLI(c, "", append([]string{"compare", "trees", "-i", fa, "-c", fb}, extra...)...)
+			o.Ev("cli", 1)
+			if o.Check(res.Exit == 0 && !res.Panic, "cli_compare_failed", strings.Join(extra, " ")+": "+res.brief(), inp) {
+				same := t1 == 0 && t2 == 0
+				want := fmt.Sprintf("tree\tidentical\n0\t%v\n1\ttrue\n2\t%v\n", same, same)
+				o.Check(res.Stdout == want, "cli_compare_binary", fmt.Sprintf("compare trees %s: got %q, expected %q", strings.Join(extra, " "), res.Stdout, want), inp, "opts", strings.Join(extra, " "))
+			}
+		}
 		if lens == "all" {
-			res = runCLI(c, "", "compare", "trees", "-i", fa, "-c", fb, "--weighted")
-			if o.Check(res.Exit == 0 && !res.Panic, "cli_compare_failed", res.brief(), inp) {
-				wrf, kf := 0.0, 0.0
-				for k, s := range sa {
-					if s.Trivial {
-						continue
-					}
-					if s2, ok := sb[k]; ok {
-						wrf += math.Abs(s.Len - s2.Len)
-						kf += (s.Len - s2.Len) * (s.Len - s2.Len)
-					} else {
-						wrf += s.Len
-						kf += s.Len * s.Len
-					}
+			for _, withTips := range []bool{false, true} {
+				wargs := []string{"compare", "trees", "-i", fa, "-c", fb, "--weighted"}
+				if withTips {
+					wargs = append(wargs, "-l")
 				}
-				for k, s := range sb {
-					if _, ok := sa[k]; !ok && !s.Trivial {
-						wrf += s.Len
-						kf += s.Len * s.Len
+				res = runCLI(c, "", wargs...)
+				if o.Check(res.Exit == 0 && !res.Panic, "cli_compare_failed", res.brief(), inp) {
+					wrf, kf := 0.0, 0.0
+					for k, s := range sa {
+						if s.Trivial && !withTips {
+							continue
+						}
+						if s2, ok := sb[k]; ok {
+							wrf += math.Abs(s.Len - s2.Len)
+							kf += (s.Len - s2.Len) * (s.Len - s2.Len)
+						} else {
+							wrf += s.Len
+							kf += s.Len * s.Len
+						}
 					}
-				}
-				lines := strings.Split(strings.TrimSpace(res.Stdout), "\n")
-				okFmt := len(lines) == 4 && lines[0] == "tree\tweighted_RF\tKF"
-				if o.Check(okFmt, "cli_weighted_table", fmt.Sprintf("unexpected table %q", res.Stdout), inp) {
-					f := strings.Split(lines[1], "\t")
-					g1, e1 := strconv.ParseFloat(f[1], 64)
-					g2, e2 := strconv.ParseFloat(f[2], 64)
-					near := func(x, y float64) bool { return math.Abs(x-y) <= 2e-6*math.Max(math.Abs(x), math.Abs(y))+1e-12 }
-					o.Check(e1 == nil && e2 == nil && near(g1, wrf) && near(g2, math.Sqrt(kf)), "cli_weighted_values",
-						fmt.Sprintf("printed wRF=%s KF=%s, recomputed %E %E", f[1], f[2], wrf, math.Sqrt(kf)), inp)
+					for k, s := range sb {
+						if _, ok := sa[k]; !ok && (!s.Trivial || withTips) {
+							wrf += s.Len
+							kf += s.Len * s.Len
+						}
+					}
+					lines := strings.Split(strings.TrimSpace(res.Stdout), "\n")
+					okFmt := len(lines) == 4 && lines[0] == "tree\tweighted_RF\tKF"
+					if o.Check(okFmt, "cli_weighted_table", fmt.Sprintf("unexpected table %q", res.Stdout), inp) {
+						f := strings.Split(lines[1], "\t")
+						g1, e1 := strconv.ParseFloat(f[1], 64)
+						g2, e2 := strconv.ParseFloat(f[2], 64)
+						near := func(x, y float64) bool { return math.Abs(x-y) <= 2e-6*math.Max(math.Abs(x), math.Abs(y))+1e-12 }
+						o.Check(e1 == nil && e2 == nil && near(g1, wrf) && near(g2, math.Sqrt(kf)), "cli_weighted_values",
+							fmt.Sprintf("--weighted tips=%v: printed wRF=%s KF=%s, recomputed %E %E", withTips, f[1], f[2], wrf, math.Sqrt(kf)), inp, "tips", fmt.Sprint(withTips))
+					}
 				}
 			}
 		}
